@@ -240,6 +240,33 @@ def routes(job):
                     bad("routes-disagree/pixel-lookup-vs-single", "corners differ by %.3g rad" % tg.angdist(tvec(tp), vs).max(), cfg)
             except Exception as e:
                 bad("route-pixel-lookup/raises:%s" % type(e).__name__, repr(e), cfg)
+        # points ON the grid: the tile's own corner points (bit for bit as the library reports them) and its edge
+        # midpoints, looked up at this and at deeper levels.  Such a point may resolve to any tile it touches, but the
+        # tile handed back must be a real one: its corners are the corners of the position it names (by the
+        # single-tile route) and it contains the point
+        if n <= 5:
+            onq = [(float(s.corners[k][0]), float(s.corners[k][1])) for k in range(4)]
+            for k in range(4):
+                onq.append(tuple(float(v) for v in tg.lonlat(tg._norm(c[k] + c[(k + 1) % 4]))))
+            for (qlon, qlat) in onq:
+                q = tg.vec(qlon, qlat)
+                for dd in range(n, min(n + 4, 9)):
+                    part.count("on_grid_lookups")
+                    try:
+                        pq = toast.toast_tile_for_point(dd, qlat, qlon, coordsys=cs)
+                        ps = toast.create_single_tile(Pos(*tuple(pq.pos)), coordsys=cs)
+                    except Exception as e:
+                        bad("route-lookup/raises:%s" % type(e).__name__, repr(e), cfg)
+                        break
+                    if pq.pos.n != dd or tg.angdist(tvec(pq), tvec(ps)).max() > 1e-12 or bool(pq.increasing) != bool(ps.increasing):
+                        bad("routes-disagree/lookup-on-grid-vs-single", "lookup of the grid point lon=%r lat=%r at depth %d returned position %r with corners %.3g rad from that position's" % (qlon, qlat, dd, tuple(pq.pos), tg.angdist(tvec(pq), tvec(ps)).max()), cfg)
+                        break
+                    if not tg.contains(tg.single(dd, pq.pos.x, pq.pos.y, planetary)[0], q, tol=1e-9):
+                        bad("route-lookup/on-grid-point-not-in-tile", "lookup of the grid point lon=%r lat=%r at depth %d returned %r, which does not touch it" % (qlon, qlat, dd, tuple(pq.pos)), cfg)
+                        break
+                else:
+                    continue
+                break
         # ... and at points 4% of the way from each corner towards the centre (well inside the tile, but
         # close enough to its edges that a size-independent tolerance would misplace them in deep tiles)
         if 19 <= n <= 22:
